@@ -130,6 +130,14 @@ class TraceRun:
                 vals.append(x)
         self.pack_out[n] = vals
 
+    def cb_poseidon(self, xs):
+        """Traced Poseidon sponge of the given secrets (zkinterface fields only; elsewhere the module refuses
+        to load, which the plan sees as a NotImplementedError of that statement)."""
+        import importlib
+        ph = importlib.import_module("pysnark.poseidon_hash")
+        self.probe("poseidon_hash_traced")
+        return ph.poseidon_hash(list(xs))
+
     def cb_callstart(self, n):
         self.calls[n] = {"ev0": len(self.w.rec.events)}
 
@@ -315,7 +323,8 @@ class TraceRun:
             "PrivValFxp": w.fixedpoint.PrivValFxp, "PubValFxp": w.fixedpoint.PubValFxp,
             "LinCombFxp": w.fixedpoint.LinCombFxp,
             "if_then_else": w.branching.if_then_else, "Array": w.array.Array,
-            "__zero__": rt.ConstVal(0), "__inputs__": self.inputs, "__step__": self.cb_step, "__enter__": self.cb_enter,
+            "__zero__": rt.ConstVal(0), "__poseidon__": self.cb_poseidon, "__inputs__": self.inputs,
+            "__step__": self.cb_step, "__enter__": self.cb_enter,
             "__leave__": self.cb_leave, "__caught__": self.cb_caught, "__set_ie__": self.cb_set_ie,
             "__cv__": self.cb_cv, "__CAUGHT__": (Exception, W.InjectedInterrupt),
             "__packinfo__": self.cb_packinfo, "__packout__": self.cb_packout,
